@@ -282,6 +282,27 @@ def run(prog: Program) -> Results:
                 res.add("R-C20-7", (k, "optional field dereferenced without a guard", fld), f.loc(n),
                         f"{k}: `{norm(n)}` may be None (declared Optional) and is dereferenced on a path with no test of it: that "
                         f"input raises AttributeError/TypeError out of parse/rebuild")
+    # ---------------------------------------------------------------- R-C20-9 predicates do not convert
+    r9 = res.rule("R-C20-9", "deciding is not converting: a predicate (a function annotated `-> bool`) in the parse closure never "
+                  "reaches tree_sitter_node_to_expression / a from_cst — the dispatcher asks Import.is_import_node for every "
+                  "application and then converts the same callee again, so a converting predicate doubles the work per nesting "
+                  "level of a curried call (2^n parse time)", floor=8)
+    for k in sorted(closure):
+        f = prog.funcs[k]
+        if f.module.startswith(skip_mod) or f.node.returns is None or norm(f.node.returns) != "bool":
+            continue
+        if f.name in ("has_scope", "__eq__", "__contains__"):
+            continue
+        r9.instances += 1
+        reach = cg.reachable([k]) - {k}
+        conv = sorted(x for x in reach if x == "tree_sitter_node_to_expression" or x.endswith(".from_cst") or x == "parse_let_expression")
+        r9.ob(not conv, None if not conv else {"predicate": k, "reaches": conv[:3]})
+        if conv:
+            res.add("R-C20-9", (k, "predicate converts the node it inspects"), f.loc(),
+                    f"{k} (a yes/no question) reaches {conv[:3]}: the caller converts the same subtree again after the answer, so every "
+                    f"level of nesting is parsed twice — `f a0 a1 … a17` takes seconds")
+    from sa.rules import kinds
+    kinds.check(prog, res, "R-C20-8")
     res.tables.append(f"sa/rules/c20.py:REVIEWED_UNBOUND ({len(REVIEWED_UNBOUND)} infeasible paths)")
     res.tables.append(f"sa/rules/c20.py:REVIEWED_INDEX ({len(REVIEWED_INDEX)} grammar-shape entries)")
     res.tables.append(f"sa/rules/c20.py:REVIEWED_RAISES ({len(REVIEWED_RAISES)} entries)")
